@@ -939,6 +939,9 @@ class Program:
                 b.inlined_into = bj.get("inlined_into") or []
                 self.by_id[b.id] = b
                 self.by_nname[b.nname].append(b)
+                b.alias_of = bj.get("alias_of")
+                if bj.get("alias_of"):
+                    self.by_nname[bj["alias_of"]].append(b)      # a known function found under a new path (moved / method <-> free fn)
                 if b.inlined_into and b.id not in fnrefs:
                     continue          # fully spliced into its callers: analysed there
                 self.bodies.append(b)
